@@ -173,6 +173,7 @@ class Contract(object):
         self.note = note
         self.allow_any_raise = allow_any_raise
         self.olds = []
+        self.extra_olds = []
         for _, c in self.ensures:
             self.olds.extend(_old_exprs(c))
         for v in self.raises.values():
@@ -189,7 +190,7 @@ class Contract(object):
 
     def _eval_olds(self, it, env):
         table = {}
-        for src in self.olds:
+        for src in list(self.olds) + list(self.extra_olds):
             if src not in table:
                 try:
                     table[src] = _snapshot(it.spec_eval(src, env))
@@ -694,7 +695,8 @@ class FunctionUnit(object):
                 tmp = dict(env.vars)
                 c.pre_state(it, tmp)
                 pre_extra = {k: v for k, v in tmp.items() if k not in env.vars}
-                ctx.ghost['spec_vars'] = dict(pre_extra)    # visible to loop invariants of the unit's body
+            # visible to loop invariants of the unit's body: pre-state extras and old(...)
+            ctx.ghost['spec_vars'] = dict(pre_extra, __old__=env_old)
             inputs = _input_objects(bound)
             snap = {id(o): (o, dict(o.fields)) for o in inputs}
             for o in inputs:
